@@ -155,9 +155,9 @@ rfbBool rfbSendRectEncodingZRLE(rfbClientPtr cl, int x, int y, int w, int h)
 
   case 32: {
     rfbBool fitsInLS3Bytes
-      = ((cl->format.redMax   << cl->format.redShift)   < (1<<24) &&
-         (cl->format.greenMax << cl->format.greenShift) < (1<<24) &&
-         (cl->format.blueMax  << cl->format.blueShift)  < (1<<24));
+      = (((uint32_t)cl->format.redMax   << cl->format.redShift)   < (1<<24) &&
+         ((uint32_t)cl->format.greenMax << cl->format.greenShift) < (1<<24) &&
+         ((uint32_t)cl->format.blueMax  << cl->format.blueShift)  < (1<<24));
 
     rfbBool fitsInMS3Bytes = (cl->format.redShift   > 7  &&
                            cl->format.greenShift > 7  &&
